@@ -320,9 +320,36 @@ def r13_no_materialise(ctx, rule='R13', min_level=1):
     L = Levels(ctx)
     n_funcs = 0
     n_sites = 0
+    # a helper of the terminal (the driver) that is handed the resource being consumed inside the driver's loop, and is called
+    # from nowhere else, is part of the terminal: `results.append(self._collect_rows(res))`
+    terminal = dict(TERMINALS)
+    sites = {}
+    for g in ctx.repo.functions.values():
+        if isinstance(g.node, ast.Lambda):
+            continue
+        for c in own_nodes(g.node):
+            if isinstance(c, ast.Call):
+                for t in ctx.res._resolve_callee(c.func, g.module, g):
+                    if isinstance(t, FuncInfo):
+                        sites.setdefault(t.qualname, []).append((g, c))
+    for q, ss in sites.items():
+        if q in terminal or not ss:
+            continue
+        ok_all = True
+        for g, c in ss:
+            if g.qualname not in TERMINALS:
+                ok_all = False
+                break
+            loops = [a for a in parent_chain(c) if isinstance(a, (ast.For, ast.AsyncFor))]
+            lv_names = {n_.id for l_ in loops for n_ in ast.walk(l_.target) if isinstance(n_, ast.Name)}
+            if not (loops and any(isinstance(a, ast.Name) and a.id in lv_names for a in list(c.args) + [k.value for k in c.keywords])):
+                ok_all = False
+                break
+        if ok_all:
+            terminal[q] = 'helper of the driver loop, called only there with the resource being consumed'
     for f in L.funcs:
-        if f.qualname in TERMINALS:
-            run.note('%s exempt: %s' % (f.qualname, TERMINALS[f.qualname]))
+        if f.qualname in terminal:
+            run.note('%s exempt: %s' % (f.qualname, terminal[f.qualname]))
             continue
         nodes = list(ast.walk(f.node.body)) if isinstance(f.node, ast.Lambda) else list(own_nodes(f.node))
         has_stream = any(k[0] == id(f.node) for k in L.lv) or \
